@@ -171,8 +171,17 @@ def resolveIndexed (fuel : Nat) (st : St) (obj index : Node) : Option Node × St
       | some aliased => resolveIndexed fuel st aliased index
       | none =>
         match lookupReg st.interfaces (n, b) with
-        | some (.mk .tsIface _ [_, _, _, .mk .tsIfaceBody _ [.mk .list _ members]]) =>
+        | some (.mk .tsIface _ [_, _, .mk .list _ extends_, .mk .tsIfaceBody _ [.mk .list _ members]]) =>
           let (props, st) := selectMembers fuel st members index
+          -- inherited members
+          let (props, st) := extends_.foldl (fun (acc : List Node × St) parent =>
+            match parent with
+            | .mk .tsExprWithTypeArgs _ [.mk .ident ias _, targs] =>
+              match resolveIndexed fuel acc.2 (.mk .tsTypeRef [] [.mk .ident ias [], targs]) index with
+              | (some (.mk .tsUnion _ [.mk .list _ types]), st) => (acc.1 ++ types, st)
+              | (some t, st) => (acc.1 ++ [t], st)
+              | (none, st) => (acc.1, st)
+            | _ => acc) (props, st)
           (pack props, st)
         | some _ => (none, st)
         | none =>
